@@ -40,7 +40,8 @@ Record Inv (adh : N) (blooms : list bloom) (st : bstate) : Prop := {
 
 Lemma inv_init adh : Inv adh [] init_state.
 Proof.
-  constructor; cbn; try reflexivity; intros; try discriminate; try lia.
+  constructor; cbn [init_state cur_rec fs_rec filter_start kv cache nxt length N.of_nat N.eqb]; rewrite ?kv_get_empty;
+    try reflexivity; intros; rewrite ?kv_get_empty in *; try discriminate; try lia.
   unfold S, BloomBitsBlocks in *; lia.
 Qed.
 
@@ -65,7 +66,7 @@ Proof. unfold stored. rewrite kv_get_put_same. reflexivity. Qed.
 
 Lemma stored_put_other s h b k : h < U32 -> k < U32 -> k <> h -> stored (kv_put s (bloom_key h) b) k = stored s k.
 Proof.
-  intros Hh Hk Hne. unfold stored. rewrite kv_get_put_other; [reflexivity|].
+  intros Hh Hk Hne. unfold stored. rewrite kv_get_put_other; [reflexivity|apply bloom_key_wf|apply bloom_key_wf|].
   intro E. apply bloom_key_inj in E; [contradiction|exact Hk|exact Hh].
 Qed.
 
@@ -137,7 +138,10 @@ Let c2 := if zN (clean_bound SZ) <? h
           then PositiveMap.remove (ckey (zN (clean_target (Z.of_N h) SZ))) c1 else c1.
 
 Lemma kv1_bits i s : kv_get kv1 (bloom_bits_key i s) = kv_get (kv st) (bloom_bits_key i s).
-Proof. apply kv_get_put_other. intro E; symmetry in E; apply bloom_key_ne_bits_key in E; exact E. Qed.
+Proof.
+  apply kv_get_put_other; [apply bloom_key_wf|apply bits_key_wf|].
+  intro E; symmetry in E; apply bloom_key_ne_bits_key in E; exact E.
+Qed.
 
 Lemma kv1_stored_old k : k < h -> stored kv1 k = stored (kv st) k.
 Proof. intro Hk. apply stored_put_other; unfold U32 in *; lia. Qed.
@@ -172,11 +176,11 @@ Proof.
   - intros _ k Hk. apply c2_find; [exact Hfs|]. unfold S, BloomBitsBlocks in *; lia.
   - intros h' v Hh' E. unfold kv1 in E. destruct (N.eqb_spec h' h) as [->|Hne].
     + rewrite kv_get_put_same in E. injection E as <-. split; [lia|]. symmetry; apply nthB_app_new.
-    + rewrite kv_get_put_other in E by (intro E2; apply bloom_key_inj in E2; unfold U32 in *; lia).
+    + rewrite kv_get_put_other in E by (try apply bloom_key_wf; intro E2; apply bloom_key_inj in E2; unfold U32 in *; lia).
       destruct (Ivals h' v Hh' E) as [H1 ->]. fold h in H1. split; [lia|]. symmetry; apply nthB_app_old; exact H1.
   - intros h' H1 H2. unfold kv1. destruct (N.eqb_spec h' h) as [->|Hne].
     + rewrite kv_get_put_same. unfold h; rewrite nthB_app_new. reflexivity.
-    + rewrite kv_get_put_other by (intro E2; apply bloom_key_inj in E2; unfold U32 in *; lia).
+    + rewrite kv_get_put_other by (try apply bloom_key_wf; intro E2; apply bloom_key_inj in E2; unfold U32 in *; lia).
       rewrite nthB_app_old by (fold h; lia). apply Ihave; [fold h; lia|exact H2].
   - intros i s v Hi Hs E. rewrite kv1_bits in E. destruct (Ibits i s v Hi Hs E) as [H1 [H2 H3]]. fold h in H2.
     split; [|split]; [exact H1|lia|]. rewrite kv1_sec_vec by exact H2. exact H3.
@@ -209,7 +213,7 @@ Proof.
 Qed.
 
 Lemma kv2_bloom k : kv_get kv2 (bloom_key k) = kv_get kv1 (bloom_key k).
-Proof. apply put_all_other. intros iv _. apply bloom_key_ne_bits_key. Qed.
+Proof. apply put_all_other; [apply bloom_key_wf|]. intros iv _. apply bloom_key_ne_bits_key. Qed.
 
 Lemma kv2_stored k : stored kv2 k = stored kv1 k.
 Proof. unfold stored. rewrite kv2_bloom. reflexivity. Qed.
@@ -229,7 +233,7 @@ Qed.
 Lemma kv2_bits_old i s : i < 65536 -> s < U32 -> h < U32 -> (s <> sec \/ BloomBitLength <= i) ->
   kv_get kv2 (bloom_bits_key i s) = kv_get (kv st) (bloom_bits_key i s).
 Proof.
-  intros Hi Hs Hh Hd. unfold kv2. rewrite put_all_other; [apply kv1_bits|].
+  intros Hi Hs Hh Hd. unfold kv2. rewrite put_all_other; [apply kv1_bits|apply bits_key_wf|].
   intros [i' v'] Hin E. cbn [fst] in E. apply in_combine_l in Hin. apply In_nseq in Hin.
   apply bits_key_inj in E; unfold BloomBitLength, U32, sec, S, BloomBitsBlocks in *; lia.
 Qed.
@@ -248,11 +252,11 @@ Proof.
   - intros _ k Hk. exfalso. unfold S, BloomBitsBlocks in *; lia.
   - intros h' v Hh' E. rewrite kv2_bloom in E. unfold kv1 in E. destruct (N.eqb_spec h' h) as [->|Hne].
     + rewrite kv_get_put_same in E. injection E as <-. split; [lia|]. symmetry; apply nthB_app_new.
-    + rewrite kv_get_put_other in E by (intro E2; apply bloom_key_inj in E2; unfold U32 in *; lia).
+    + rewrite kv_get_put_other in E by (try apply bloom_key_wf; intro E2; apply bloom_key_inj in E2; unfold U32 in *; lia).
       destruct (Ivals h' v Hh' E) as [H1 ->]. fold h in H1. split; [lia|]. symmetry; apply nthB_app_old; exact H1.
   - intros h' H1 H2. rewrite kv2_bloom. unfold kv1. destruct (N.eqb_spec h' h) as [->|Hne].
     + rewrite kv_get_put_same. unfold h; rewrite nthB_app_new. reflexivity.
-    + rewrite kv_get_put_other by (intro E2; apply bloom_key_inj in E2; unfold U32 in *; lia).
+    + rewrite kv_get_put_other by (try apply bloom_key_wf; intro E2; apply bloom_key_inj in E2; unfold U32 in *; lia).
       rewrite nthB_app_old by (fold h; lia). apply Ihave; [fold h; lia|exact H2].
   - intros i s v Hi Hs E.
     destruct (N.eqb_spec s sec) as [->|Hns]; [destruct (N.ltb_spec i BloomBitLength) as [Hib|Hib]|].
@@ -309,37 +313,39 @@ Proof.
   destruct I as [Icur Irec Ifs1 Ifs2 _ _ _ _ _]. unfold fs. destruct (fs_rec st) as [f|].
   - subst f. split; assumption.
   - unfold init. destruct (N.ltb_spec cur adh) as [Hlt|Hge].
-    + rewrite min_filter_start_spec. unfold S, BloomBitsBlocks. split; right; lia.
-    + rewrite load_init_start_spec. unfold cur in *. split; left; lia.
+    + rewrite min_filter_start_spec. clear. unfold S, BloomBitsBlocks. split; right; lia.
+    + rewrite load_init_start_spec. clear - Hne. unfold cur in *. split; left; lia.
 Qed.
 
 Theorem restart_inv : exists st', load_bloom_bits adh st = Some st' /\ Inv adh blooms st'.
 Proof.
   destruct fs_props as [F1 F2].
   unfold load_bloom_bits. rewrite cur_rec_some. fold init. fold fs.
+  clearbody fs. clear init.
+  assert (Hcur : cur + 1 = nxt blooms) by (unfold cur; lia). clearbody cur.
+  assert (Icur' : Some cur = (if nxt blooms =? 0 then None else Some (nxt blooms - 1))).
+  { destruct (N.eqb_spec (nxt blooms) 0); [contradiction|]. f_equal. lia. }
+  assert (II := I).
   destruct I as [Icur Irec Ifs1 Ifs2 Icache Ivals Ihave Ibits Ibh].
   destruct (N.ltb_spec cur fs) as [Hlt|Hge].
   - eexists; split; [reflexivity|].
     constructor; cbn [cur_rec fs_rec filter_start kv cache]; try assumption; try reflexivity.
-    + rewrite cur_rec_some. destruct (N.eqb_spec (nxt blooms) 0); [contradiction|reflexivity].
-    + intros Hle k Hk. exfalso. assert (fs = nxt blooms) by (unfold cur in *; lia).
-      assert (fs mod S = 0) by (destruct F1; [lia|assumption]). unfold S, BloomBitsBlocks in *; lia.
+    intros Hle k Hk. exfalso. clear - Hle Hk Hlt Hcur F1. unfold S, BloomBitsBlocks in *. lia.
   - rewrite load_start_spec. set (ls := cur - cur mod S).
     assert (Hc : collect (map (fun i => get_bloom_data (kv st) i) (nseq ls (cur + 1 - ls)))
                  = Some (map (stored (kv st)) (nseq ls (cur + 1 - ls)))).
     { apply collect_map. intros i Hi. apply In_nseq in Hi.
-      apply (get_bloom_data_stored adh blooms st i); [constructor; assumption|exact W|].
-      unfold cur, ls in *; lia. }
+      apply (get_bloom_data_stored adh blooms st i); [exact II|exact W|].
+      clear - Hi Hcur Hlen. unfold ls, S, BloomBitsBlocks, U32 in *. lia. }
     rewrite Hc. eexists; split; [reflexivity|].
     constructor; cbn [cur_rec fs_rec filter_start kv cache]; try assumption; try reflexivity.
-    + rewrite cur_rec_some. destruct (N.eqb_spec (nxt blooms) 0); [contradiction|reflexivity].
-    + intros _ k Hk.
-      change (PositiveMap.find (ckey k) (load_all (combine (nseq ls (cur + 1 - ls)) (map (stored (kv st)) (nseq ls (cur + 1 - ls)))) (PositiveMap.empty bloom))
-              = Some (stored (kv st) k)).
-      rewrite load_all_find, existsb_nseq.
-      replace ((ls <=? k) && (k <? ls + (cur + 1 - ls))) with true; [reflexivity|].
-      symmetry; apply andb_true_iff; split; [apply N.leb_le|apply N.ltb_lt];
-        unfold ls, cur, S, BloomBitsBlocks in *; lia.
+    intros _ k Hk.
+    change (PositiveMap.find (ckey k) (load_all (combine (nseq ls (cur + 1 - ls)) (map (stored (kv st)) (nseq ls (cur + 1 - ls)))) (PositiveMap.empty bloom))
+            = Some (stored (kv st) k)).
+    rewrite load_all_find, existsb_nseq.
+    replace ((ls <=? k) && (k <? ls + (cur + 1 - ls))) with true; [reflexivity|].
+    symmetry; apply andb_true_iff; split; [apply N.leb_le|apply N.ltb_lt];
+      clear - Hk Hcur; unfold ls, S, BloomBitsBlocks in *; lia.
 Qed.
 End Restart.
 
@@ -356,7 +362,7 @@ Proof.
   - exists st. split; [reflexivity|]. simpl. rewrite app_nil_r. exact I.
   - destruct o as [b|].
     + cbn [blooms_of length] in *. apply Forall_cons_iff in Wo. destruct Wo as [Wb Wr].
-      destruct (commit_inv adh blooms st b I W Wb ltac:(lia)) as [st1 [E1 I1]].
+      destruct (commit_inv adh blooms st b I ltac:(lia)) as [st1 [E1 I1]].
       destruct (IH (blooms ++ [b]) st1 I1) as [st2 [E2 I2]].
       * apply Forall_app; split; [exact W|constructor; [exact Wb|constructor]].
       * exact Wr.
